@@ -6,6 +6,9 @@ import "sort"
 
 // PropertySpec says which rules decide which clause of a property.
 type PropertySpec struct {
+	// Only restricts, per rule, the obligations reported under this property to those whose construct contains one of
+	// the given substrings (a shared rule has clauses for several properties; each is reported where it belongs).
+	Only        map[string][]string
 	Rules       []string
 	Explanation string
 	NotCovered  string
@@ -196,4 +199,36 @@ func init() {
 	addRules("C14", "R-IDLE", "R-NOALIAS")
 	addRules("C18", "R-ROLES")
 	addRules("C19", "R-ROLES")
+}
+
+func init() {
+	only := func(prop string, m map[string][]string) {
+		p := Properties[prop]
+		if p.Only == nil {
+			p.Only = map[string][]string{}
+		}
+		for k, v := range m {
+			p.Only[k] = v
+		}
+		Properties[prop] = p
+	}
+	predicateConsts := []string{"maxDeterminantError", "detErrorMultiplier", "triage", "stableSign", "cosDistance", "sin2Distance", "s2.dblEpsilon", "s2.dblError", "r1.dblEpsilon", "s1.dblEpsilon"}
+	clipConsts := []string{"edgeClip", "faceClip", "intersectsRect", "cellPadding", "ShapeIndex)", "boundaryApproxIntersects", "ShrinkToFit"}
+	only("C01", map[string][]string{"R-CONST": {"Cell).ContainsPoint", "maxXYZtoUVError"}, "R-RANGE": {"CellID)", "CellUnion", "cellunion"}})
+	only("C02", map[string][]string{"R-CONST": predicateConsts, "R-CONSTREL": {"r3.MaxPrec", "stableSign"}})
+	only("C03", map[string][]string{"R-CONST": {"EdgeCrosser", "intersection", "projection"}, "R-CONSTREL": {"stableSign"}, "R-STAGES": {"RobustSign", "expensiveSign", "exactSign", "bound:", "symbolicallyPerturbedSign"}})
+	only("C05", map[string][]string{"R-CONST": clipConsts, "R-PADDING": {"boundaryApproxIntersects"}, "R-CYCLE": {"coverer", "CellUnionBound"}})
+	only("C06", map[string][]string{"R-CONST": clipConsts})
+	only("C07", map[string][]string{"R-ROLES": {"hasCrossing", "(*s2.Loop)."}})
+	only("C08", map[string][]string{"R-CONSTREL": {"findEdgesInternal"}, "R-CYCLE": {"EdgeQuery", "CellUnionBound"}})
+	only("C09", map[string][]string{"R-CONST": {"siTitoPiQi"}, "R-SELFCMP": {"scan", "xyzToFaceSiTi", "stuv", "pointcompression", "s2."}})
+	only("C10", map[string][]string{"R-CONST": {"RectBounder", "ExpandForSubregions", "Cell).RectBound", "Cap).AddCap", "poleMinLat"}, "R-PADDING": {"Cap).RectBound"}, "R-CONSTREL": {"ExpandForSubregions"}})
+	only("C18", map[string][]string{"R-CONST": {"turningAngleMaxError", "PointArea"}, "R-ROLES": {"CanonicalFirstVertex", "initOneLoop"}})
+	only("C19", map[string][]string{"R-ROLES": {"ChordAngle"}})
+	// error budgets of kernels whose own properties (C16, C17, C20) are not claimed are reported where the claimed
+	// properties depend on them: the conservative distance limits of the edge queries.
+	p := Properties["C08"]
+	p.Rules = append(p.Rules, "R-CONST")
+	Properties["C08"] = p
+	only("C08", map[string][]string{"R-CONST": {"ChordAngle).Max", "interiorDist", "minUpdate", "Interval).Expanded"}})
 }
